@@ -290,6 +290,81 @@ def exhaustive_cases(cfg, inp, ngpus, overheads):
     return out
 
 
+def gen_seq_cases(rng, per_cfg, n):
+    """several calls in ONE harness process on the same decoded model: the same model + GPU list + options evaluated 2-4 times
+    with nothing changed, with only the environment changed (OLLAMA_GPU_OVERHEAD, OLLAMA_FLASH_ATTENTION, OLLAMA_KV_CACHE_TYPE),
+    with one argument changed, as estimate and as fit, and interleaved with calls for other models.  Every call is monitored
+    against its own overhead / free memory and compared with the model on its own."""
+    out = []
+    pools = [[strip(c) for c in p if c["op"] in ("estimate", "fit") and c["gpus"]] for p in per_cfg]
+    pools = [p for p in pools if p]
+    if not pools:
+        return out
+    for _ in range(n):
+        pool = rng.choice(pools)
+        b = dict(rng.choice(pool))
+        if I(b["overhead"]) >= 1 << 62:
+            b["overhead"] = "0"
+        frees = [I(g["free"]) for g in b["gpus"]]
+        steps, kinds = [b], ["base"]
+        for _ in range(rng.randint(1, 3)):
+            kind = rng.choice(["same", "ovh", "ovh", "ovh", "ovh", "env", "env+ovh", "other", "free", "numgpu", "op"])
+            d = dict(b)
+            if kind in ("ovh", "env+ovh"):
+                old = I(b["overhead"])
+                d["overhead"] = str(rng.choice([0 if old else 1 + max(frees) // 4, old + 1, old + min(frees) // 2 + 1, old + max(frees) // 3 + 1,
+                                                max(frees), old + rng.randint(1, 1 + max(frees))]))
+            if kind in ("env", "env+ovh"):
+                d["flash"] = rng.random() < 0.8
+                d["kvtype"] = rng.choice(["q8_0", "q4_0", "f16", "", "bogus"])
+            if kind == "other":
+                d = dict(rng.choice(rng.choice(pools)))
+            if kind == "free":
+                d["gpus"] = [dict(g) for g in b["gpus"]]
+                g = rng.choice(d["gpus"])
+                g["free"] = str(max(0, I(g["free"]) // rng.choice([2, 3]) + rng.choice([-1, 0, 1])))
+            if kind == "numgpu":
+                d["num_gpu"] = rng.choice([-1, 0, 1, 2, bc_of(b), bc_of(b) + 1])
+            if kind == "op":
+                d["op"] = "fit" if b["op"] == "estimate" else "estimate"
+            steps.append(d)
+            kinds.append(kind)
+            if rng.random() < 0.35:       # ... and back to the first call
+                steps.append(dict(b))
+                kinds.append("back")
+        out.append({"op": "seq", "steps": steps, "kinds": kinds, "klass": "seq"})
+    return out
+
+
+def flatten(cases, obs):
+    """-> list of (case, observation, (sequence case, step index) or None)"""
+    flat = []
+    for c, o in zip(cases, obs):
+        if c["op"] == "seq":
+            kinds = c.get("kinds") or []
+            for k, (sc, so) in enumerate(zip(c["steps"], o.get("steps") or [])):
+                flat.append((dict(sc, klass="seq/" + (kinds[k] if k < len(kinds) else "step")), so, (c, k)))
+        else:
+            flat.append((c, o, None))
+    return flat
+
+
+def shrink_seq(ctx, binp, seq, k, clause):
+    """smallest of: the failing call alone (then the failure does not depend on earlier calls), the call before it + the failing
+    call, the prefix up to the failing call"""
+    steps = [strip(x) for x in seq["steps"]]
+
+    def fails(sub):
+        obs, _ = ctx.run_jsonl(binp, [{"op": "seq", "steps": sub}])
+        if not obs or not obs[0].get("steps") or len(obs[0]["steps"]) != len(sub):
+            return False
+        return any(cl == clause for cl, _ in monitor(ctx, sub[-1], obs[0]["steps"][-1]))
+    for sub in ([steps[k]], steps[max(0, k - 1):k + 1], steps[:k + 1]):
+        if fails(sub):
+            return sub
+    return steps
+
+
 def gen_bylib(rng, n):
     out = []
     for _ in range(n):
@@ -503,8 +578,12 @@ def gen_sched_cases(rng, cfg, ins, k):
                 g["total"] = str(max(0, eff - rng.randint(0, 10)))
             else:
                 g["total"] = str(eff + p + rng.randint(0, 5))
+        extra = {}
+        if runners and rng.random() < 0.35:
+            # a helper goroutine holds one loaded runner's refMu for a moment while updateFreeSpace runs
+            extra = {"hold": rng.randrange(len(runners)) if rng.random() < 0.85 else -1, "hold_ms": rng.choice([1, 2, 3])}
         out.append(dict(common, op=op, num_ctx=rng.choice([4, 64, 512, 2048]), num_parallel=np_, overhead=str(ovh), spread=rng.random() < 0.15,
-                        gpus=gl, runners=runners, klass="sched/%s/%s" % (op, "auto" if np_ <= 0 else "np%d" % np_)))
+                        gpus=gl, runners=runners, klass="sched/%s/%s%s" % (op, "auto" if np_ <= 0 else "np%d" % np_, "/held" if extra else ""), **extra))
     return out
 
 
@@ -532,6 +611,17 @@ def sched_monitor(c, o):
             bad.append(("sched_free_raised", "GPU %s reported %d bytes free but the scheduler passes %d to the estimator (total %s)"
                         % (key(g), reported[key(g)], I(g["free"]), g["total"])))
             break
+    # memory already planned for resident runners is not handed out again: free + planned <= total (free = 0 if planned > total)
+    if any(r["llama"] for r in c.get("runners", [])):
+        mult = {}
+        for g in o.get("filtered") or []:
+            mult[(g["lib"], g["id"])] = mult.get((g["lib"], g["id"]), 0) + 1
+        for g in o.get("avail") or []:
+            planned = mult.get((g["lib"], g["id"]), 1) * sum(I(r.get("vram", {}).get(g["id"], 0)) for r in c["runners"] if r["llama"])
+            if planned < W64 and I(g["free"]) > max(0, I(g["total"]) - planned):
+                bad.append(("sched_free_ignores_resident", "GPU %s: total %s, %d bytes already planned for loaded runners, but %s bytes are handed to the estimator as free%s"
+                            % (key(g), g["total"], planned, g["free"], " (while another goroutine held %s)" % ("the scheduler's loadedMu" if c["hold"] < 0 else "the refMu of loaded runner %d" % c["hold"]) if "hold" in c else "")))
+                break
     chosen = o.get("chosen")
     if chosen:
         if any(key(g) not in reported for g in chosen):
@@ -604,6 +694,11 @@ def sched_shrink(ctx, binp, c, clause):
                 if len(cur[key_]) <= n:
                     break
                 cand = dict(cur, **{key_: cur[key_][:i] + cur[key_][i + 1:]})
+                if key_ == "runners" and "hold" in cur:
+                    if i == cur["hold"]:
+                        continue
+                    if 0 <= i < cur["hold"]:
+                        cand["hold"] = cur["hold"] - 1
                 budget -= 1
                 if fails(cand):
                     cur, changed = cand, True
@@ -614,6 +709,8 @@ def sched_shrink(ctx, binp, c, clause):
                 budget -= 1
                 if fails(cand):
                     cur, changed = cand, True
+    if "hold" in cur and cur["hold"] >= 0 and len(cur["runners"]) <= cur["hold"]:
+        cur["hold"] = 0
     return cur
 
 
@@ -682,7 +779,10 @@ def run_sched(ctx, only_cases=None):
 # ------------------------------------------------------------------ driver
 
 def strip(c):
-    return {k: v for k, v in c.items() if k not in ("klass",)}
+    d = {k: v for k, v in c.items() if k not in ("klass", "kinds")}
+    if d.get("op") == "seq":
+        d["steps"] = [strip(x) for x in d["steps"]]
+    return d
 
 
 def nontrivial(c, o):
@@ -766,7 +866,7 @@ def run(ctx, only_cases=None, sched_cases=None):
     ctx.proof_stage(["Mem"], "Mem/Properties_C16.v", extra_targets=["Mem/Corr.v"],
                     expect_theorems=["C16_per_gpu_bound", "C16_per_gpu_bound_refuted", "C16_layers_le_model_and_limit", "C16_split_sums",
                                      "C16_total_ge_vram", "C16_total_ge_vram_refuted", "C16_fit_sound", "C16_unadmitted_gpu_gets_nothing",
-                                     "C16_by_library_partition", "C16_no_wrap_below_2_64", "C16_bytes_below_2_64", "C16_sched_free_never_raised",
+                                     "C16_by_library_partition", "C16_no_wrap_below_2_64", "C16_bytes_below_2_64", "C16_sched_free_never_raised", "C16_sched_free_accounts_for_resident",
                                      "C16_sched_pick_full_sound", "C16_sched_per_gpu_bound_reported", "C16_sched_first_per_gpu_bound"])
     if not ctx.quick():
         ctx.coqchk(["V.Mem.Properties_C16", "V.Mem.Corr"])
@@ -781,7 +881,7 @@ def run(ctx, only_cases=None, sched_cases=None):
     if only_cases is not None:
         cases = only_cases
     else:
-        ncfg = 180 if ctx.quick() else 1500
+        ncfg = 180 if ctx.quick() else 1200
         k_est, k_fit = (12, 3) if ctx.quick() else (24, 6)
         cfgs = [gen_config(rng) for _ in range(ncfg)]
         cfgs += [gen_exh_config(rng, 2)] if ctx.quick() else [gen_exh_config(rng, b) for b in (1, 2, 2, 3)]
@@ -794,6 +894,7 @@ def run(ctx, only_cases=None, sched_cases=None):
             ctx.proof_failures.append({"obligation": "correspondence: harness c16 could not load the generated models", "detail": detail})
             return
         cases = load_corpus()
+        per_cfg = []
         for cfg, p in zip(cfgs, pobs):
             ctx.count("model/" + cfg["profile"].split("/")[2])
             ctx.count("profile/" + cfg["profile"].split("/")[0])
@@ -806,9 +907,11 @@ def run(ctx, only_cases=None, sched_cases=None):
                     if int(p["in"]["bc"]) <= 2:
                         cases += exhaustive_cases(cfg, p["in"], 3, [5])
                 continue
-            cases += mk_cases(rng, cfg, p["in"], ctx.quick(), k_est, k_fit)
+            per_cfg.append(mk_cases(rng, cfg, p["in"], ctx.quick(), k_est, k_fit))
+            cases += per_cfg[-1]
+        cases += gen_seq_cases(rng, per_cfg, 160 if ctx.quick() else 2000)
         # the empty GPU list: EstimateGPULayers indexes gpus[0] (panic), PredictServerFit answers (false, 0)
-        c0 = cases[-1]
+        c0 = per_cfg[-1][-1]
         cases.append(dict(strip(c0), op="estimate", gpus=[], klass="estimate/empty"))
         cases.append(dict(strip(c0), op="fit", gpus=[], klass="fit/empty"))
         cases += gen_bylib(rng, 60 if ctx.quick() else 600)
@@ -818,24 +921,50 @@ def run(ctx, only_cases=None, sched_cases=None):
         ctx.obligation("harness c16 answered every case", False, detail)
         ctx.proof_failures.append({"obligation": "correspondence: harness c16 did not answer every case", "detail": detail})
         return
+    flat = flatten(cases, obs)
+    if any(not isinstance(o, dict) or "panic" in o or "harness_error" in o for _, o, _ in flat):
+        detail = json.dumps([o for _, o, _ in flat if not isinstance(o, dict) or "panic" in o or "harness_error" in o][:2])[:1500]
+        ctx.obligation("harness c16 answered every call of every sequence", False, detail)
+        ctx.proof_failures.append({"obligation": "correspondence: harness c16 failed inside a sequence", "detail": detail})
+        return
     items = []
     nviol = 0
-    for c, o in zip(cases, obs):
-        ctx.note_case(strip(c), nontrivial(c, o), c.get("klass", "replay"), sample={"case": summarize(c), "impl": {k: v for k, v in o.items() if k != "in"}})
+    seen_in_seq = {}
+    for c, o, seq in flat:
+        ctx.note_case(strip(c) if seq is None else {"seq": id(seq[0]), "k": seq[1], "c": strip(c)}, nontrivial(c, o), c.get("klass", "replay"),
+                      sample={"case": summarize(c), "impl": {k: v for k, v in o.items() if k != "in"}})
         fails = monitor(ctx, c, o)
+        if seq is not None:
+            # nothing changed between two calls of one sequence -> the answers must be identical
+            key = (id(seq[0]), json.dumps(strip(c), sort_keys=True))
+            if key in seen_in_seq and seen_in_seq[key] != o:
+                fails = fails + [("seq_same_call_different_answer", "the same call (same model, GPUs, options, environment) was answered differently "
+                                  "later in the same process: %s vs %s" % (json.dumps({k: v for k, v in seen_in_seq[key].items() if k != "in"})[:300],
+                                                                           json.dumps({k: v for k, v in o.items() if k != "in"})[:300]))]
+            seen_in_seq.setdefault(key, o)
         if fails:
             wrapc = c["op"] != "bylib" and demand_bound(c, o["in"]) >= W64
             ctx.count("wrap-capable-violations" if wrapc else "violations")
             clause, text = fails[0]
             small, so = c, o
-            if nviol < 3 and not wrapc:
+            replay_case = None
+            if seq is not None and nviol < 3 and not wrapc and clause != "seq_same_call_different_answer":
+                sub = shrink_seq(ctx, binp, seq[0], seq[1], clause)
+                if len(sub) > 1:
+                    replay_case = {"op": "seq", "steps": sub}
+                    text += "  [call %d of a sequence of %d calls in one process; fails as the last call of the %d-call sequence in the replay, not alone]" % (
+                        seq[1] + 1, len(seq[0]["steps"]), len(sub))
+            elif seq is not None:
+                replay_case = {"op": "seq", "steps": [strip(x) for x in seq[0]["steps"]]}
+            if replay_case is None and nviol < 3 and not wrapc:
                 small = shrink_case(ctx, binp, strip(c), clause)
                 so = (ctx.run_jsonl(binp, [small])[0] or [o])[0]
                 f2 = monitor(ctx, small, so)
                 text = next((t for cl, t in f2 if cl == clause), text)
             nviol += 1
-            ctx.violation({"op": c["op"], "clause": clause, "class": "uint64-wrap" if wrapc else "plain"},
-                          "%s: %s" % (clause, text), {"case": strip(small), "impl": so, "all_failed_clauses": fails,
+            ctx.violation({"op": c["op"], "clause": clause, "class": "uint64-wrap" if wrapc else "plain", "sequence": replay_case is not None},
+                          "%s: %s" % (clause, text), {"case": replay_case or strip(small), "failing_call": strip(c) if replay_case else None, "impl": so,
+                                                     "all_failed_clauses": fails,
                                                      "model": ctx.coq_print(HEADER, model_term(small, so)) if nviol <= 2 else None})
         if c["op"] != "bylib":
             ctx.count("wrap-capable" if demand_bound(c, o["in"]) >= W64 else "no-wrap")
@@ -851,14 +980,16 @@ def run(ctx, only_cases=None, sched_cases=None):
     ctx.disagreements_checked = len(items)
     ctx.obligation("correspondence: model = implementation on %d cases" % len(items), not bad)
     for i in bad[:10]:
-        ctx.mismatch("Mem/Corr.%s" % items[i].split()[0], strip(cases[i]), {k: v for k, v in obs[i].items()},
-                     ctx.coq_print(HEADER, model_term(cases[i], obs[i])) if len(ctx.mismatches) < 3 else None)
+        ci, oi, si = flat[i]
+        ctx.mismatch("Mem/Corr.%s" % items[i].split()[0],
+                     strip(ci) if si is None else {"op": "seq", "steps": [strip(x) for x in si[0]["steps"]], "disagreeing_call": si[1]},
+                     {k: v for k, v in oi.items()}, ctx.coq_print(HEADER, model_term(ci, oi)) if len(ctx.mismatches) < 3 else None)
     if bad and not ctx.violations and only_cases is None:
         # search around the disagreeing cases for an input on which the property itself fails
         around = []
         for i in bad[:5]:
-            if cases[i]["op"] != "bylib":
-                around += neighbours(rng, strip(cases[i]), obs[i]["in"], 200)
+            if flat[i][0]["op"] != "bylib":
+                around += neighbours(rng, strip(flat[i][0]), flat[i][1]["in"], 200)
         if around:
             aobs, _ = ctx.run_jsonl(binp, around, timeout=600)
             for c, o in zip(around, aobs or []):
@@ -879,7 +1010,7 @@ def summarize(c):
     return d
 
 
-def load_corpus(ops=("estimate", "fit", "bylib")):
+def load_corpus(ops=("estimate", "fit", "bylib", "seq")):
     import glob
     import os
     out = []
